@@ -55,7 +55,7 @@ def kind(x):
             return "int"
         if name in ("cat", "pack", "rep", "joinmap", "bytesof", "encode", "ljustb", "rjustb", "slice_b", "sized", "byte"):
             return "bytes"
-        if name in ("strcat", "format", "lower", "upper", "get_as_str", "str", "chr", "repr"):
+        if name in ("strcat", "format", "lower", "upper", "get_as_str", "str", "chr", "repr", "normpath", "join", "dirname", "abspath", "basename", "relpath"):
             return "str"
         if name in ("cmp", "not", "isinstance", "and_", "or_", "in"):
             return "bool"
